@@ -45,4 +45,5 @@ def main(tier):
     chk.run("R-BITSFIELD", V.bitsfield, cx.repo, floor=2)
     chk.run("R-NEGLOC", V.negloc, cx.repo, cx.schema, cx.sites, floor=2)
     chk.run("R-ATTRBACKEND", V.attrbackend, cx.repo, floor=6)
+    chk.run("R-BITSFIXED", V.bitsfixed, cx.repo, floor=2)
     return chk.finish()
